@@ -20,7 +20,8 @@ rm -rf "$W/clean/_build" "$W/mut/_build"
 mkdir -p "$W/out"
 # the check runs in a scratch copy of /verif (Lean build output included, library cache excluded): S0 regenerates
 # lean/OpusModel/Gen/*.lean from the tree under test, and a mutated tree must never leak into the committed files
-rsync -a --exclude .git --exclude '.cache/lib' --exclude replays "$V/" "$W/verif/"
+# VERIF_SNAPSHOT=<dir>: take the check from a clean snapshot of the committed /verif (used while other people edit /verif)
+rsync -a --exclude .git --exclude '.cache/lib' --exclude replays "${VERIF_SNAPSHOT:-$V}/" "$W/verif/"
 (cd "$W/verif" && VERIF_REPO="$W/mut" VERIF_OUT="$W/out" python3 tools/check.py $P --tier $TIER) > "$W/check.log" 2>&1; RC=$?
 rm -rf "$W/verif"
 echo "RESULT apply=ok build=ok ctest=$T demo_clean_rc=$DC demo_mut_rc=$DM check_rc=$RC"
